@@ -63,6 +63,30 @@ def t_proxy(rt, fr):
     return t_asynq.asynq(rt, fr)
 
 
+async def _explicit_asyncio(rt, fr):
+    """A hand-written asyncio twin of t_explicit (what a user passes as asyncio_fn=)."""
+    from asynq.asynq_to_async import AsyncioMode, resolve_awaitables
+
+    with AsyncioMode():
+        gen = lang.exec_node(rt, fr)
+        send, exc = None, None
+        while True:
+            try:
+                req = gen.send(send) if exc is None else gen.throw(exc)
+            except StopIteration as s:
+                return s.value
+            try:
+                send = await resolve_awaitables(req)
+                exc = None
+            except Exception as e:
+                exc = e
+
+
+@asynq_dec(asyncio_fn=_explicit_asyncio)
+def t_explicit(rt, fr):
+    return (yield from lang.exec_node(rt, fr))
+
+
 class Host(object):
     def __repr__(self):
         return "host"
@@ -113,12 +137,37 @@ def make_task(style, rt, fr):
         return t_pureplain(rt, fr)
     if style == "proxy":
         return t_proxy.asynq(rt, fr)
+    if style == "explicit":
+        return t_explicit.asynq(rt, fr)
     if style == "method":
         return HOST.m.asynq(rt, fr)
     if style == "classmethod":
         return Host.cm.asynq(rt, fr)
     if style == "staticmethod":
         return Host.sm.asynq(rt, fr)
+    raise HarnessFault("style %r" % (style,))
+
+
+def asyncio_entry(style, rt, fr):
+    """The coroutine fn.asyncio(args) for each style."""
+    if style == "asynq":
+        return t_asynq.asyncio(rt, fr)
+    if style == "pure":
+        return t_pure.asyncio(rt, fr)
+    if style == "plain":
+        return t_plain.asyncio(rt, fr)
+    if style == "pureplain":
+        return t_pureplain.asyncio(rt, fr)
+    if style == "proxy":
+        return t_proxy.asyncio(rt, fr)
+    if style == "explicit":
+        return t_explicit.asyncio(rt, fr)
+    if style == "method":
+        return HOST.m.asyncio(rt, fr)
+    if style == "classmethod":
+        return Host.cm.asyncio(rt, fr)
+    if style == "staticmethod":
+        return Host.sm.asyncio(rt, fr)
     raise HarnessFault("style %r" % (style,))
 
 
@@ -131,6 +180,8 @@ def sync_call(style, rt, fr, how):
         return t_plain(rt, fr)
     if style == "proxy":
         return t_proxy(rt, fr)
+    if style == "explicit":
+        return t_explicit(rt, fr)
     if style == "method":
         return HOST.m(rt, fr)
     if style == "classmethod":
@@ -367,6 +418,7 @@ class HarnessRT(object):
         self.evil = None
         self.evil_fired = 0
         self.book = None
+        self.track_running = True
         self.live_ctx = {}
         self.live_na = {}
         self.ctx_faults = prog.get("ctx_faults")
@@ -470,7 +522,8 @@ class HarnessRT(object):
         fr.steps += 1
         if k == 0:
             self.frames[fr.path] = fr
-        self.running.append(fr)
+        if self.track_running:
+            self.running.append(fr)
         self.emit("step", fr.path, k)
         for p in self.step_probes:
             p(self, fr, k)
@@ -489,7 +542,9 @@ class HarnessRT(object):
         )
         fr.rtdata = leaves
         self.yield_leaves[(fr.path, k)] = leaves
-        if self.running and self.running[-1] is fr:
+        if not self.track_running:
+            pass
+        elif self.running and self.running[-1] is fr:
             self.running.pop()
         else:
             raise HarnessFault("running stack out of sync at yield of %r" % (fr.path,))
@@ -497,7 +552,8 @@ class HarnessRT(object):
     def ev_resume(self, fr, k, leaves, got):
         fr.steps += 1
         fr.rtdata = None
-        self.running.append(fr)
+        if self.track_running:
+            self.running.append(fr)
         self.emit("resume", fr.path, k)
         for p in self.resume_probes:
             p(self, fr, k, leaves, None, got)
@@ -512,7 +568,8 @@ class HarnessRT(object):
                 p(self, fr, k, leaves)
             return
         fr.steps += 1
-        self.running.append(fr)
+        if self.track_running:
+            self.running.append(fr)
         for p in self.resume_probes:
             p(self, fr, k, leaves, e, None)
         for p in self.step_probes:
